@@ -16,6 +16,7 @@ mod conv;
 mod eval;
 mod pairs;
 mod pgen;
+mod stshapes;
 mod sx;
 mod vconv;
 mod vgen;
@@ -76,18 +77,20 @@ fn parse_text(text: &str) -> Result<rssl_ast::Module, String> {
 }
 
 fn arg_vectors(rng: &mut Rng, params: &[(u8, T)], n: usize) -> Vec<Vec<V>> {
-    let ints: [u32; 12] = [0, 1, 2, 3, 7, 31, 32, 0x7fff_ffff, 0x8000_0000, 0xffff_ffff, 0xffff_fff9, 1000];
     (0..n)
         .map(|k| {
+            // vector 1: every float parameter is a NaN (the same one: `a == a`, `a <= a`, `!(a < b)`), vector 2: distinct
+            // edge values; then mixed edge / random bits
             params
                 .iter()
                 .map(|(_, t)| {
-                    let raw = if k == 0 { 0 } else if rng.chance(2, 3) { *rng.pick(&ints) } else { rng.next() as u32 };
+                    let edge = k == 0 || rng.chance(2, 3);
+                    let r = rng.next() as u32;
                     match t {
-                        T::Bool => V::B(raw & 1 == 1),
-                        T::Int => V::I(raw),
-                        T::Uint => V::U(raw),
-                        T::Float => V::F(raw),
+                        T::Bool => V::B(k != 0 && r & 1 == 1),
+                        T::Int => V::I(if k == 0 { 0 } else if edge { *rng.pick(&INT_EDGES) } else { r }),
+                        T::Uint => V::U(if k == 0 { 0 } else if edge { *rng.pick(&INT_EDGES) } else { r }),
+                        T::Float => V::F(if k == 0 { 0 } else if k == 1 { 0x7fc0_0000 } else if edge { *rng.pick(&FLOAT_EDGES) } else { r }),
                         _ => V::Void,
                     }
                 })
@@ -371,6 +374,32 @@ fn run_program(src: &str, only: Option<(&str, &[Vec<V>])>, nvec: usize, rng: &mu
                 "generate-error".to_string()
             }
         };
+        // ---- statement attributes (hints without meaning; both evaluators ignore them): the exporter keeps every attribute
+        // on the same statement, in the same order
+        if let (Ok(Ok(mdx)), Ok(Ok(mvk))) = (&ast_dx, &ast_vk) {
+            let mut want = Vec::new();
+            if let Some(imp) = p.ir.function_registry.get_function_implementation(ir::FunctionId(*fid)).as_ref() {
+                ir_stmt_attrs(&imp.scope_block, &mut want);
+            }
+            for (flav, m) in [("dx", mdx), ("vk", mvk)] {
+                let mut got = Vec::new();
+                for rd in &m.root_definitions {
+                    if let rssl_ast::RootDefinition::Function(fd) = rd {
+                        if &fd.name.node == emitted {
+                            if let Some(b) = &fd.body {
+                                b.iter().for_each(|st| ast_stmt_attrs(st, &mut got));
+                            }
+                        }
+                    }
+                }
+                if !want.is_empty() {
+                    hist.add("fn:with-statement-attributes");
+                }
+                if got != want && fails.is_empty() {
+                    fails.push(format!("{}: statement attributes of {} differ: IR [{}] exported [{}]", flav, emitted, want.join(" "), got.join(" ")));
+                }
+            }
+        }
         // ---- oracle: emitted text, re-parsed, under C semantics == IR under typed semantics
         let mut skip_text = false;
         if fails.is_empty() && !unsupported && !refused_ok {
@@ -590,6 +619,39 @@ pub fn run(args: &Args, out: &mut Out) {
         }
         if out.oracle_fail > before {
             hist.add(&format!("shape-oracle-fail:{}", shape));
+        }
+    }
+    // exhaustive statement shapes under float comparisons, on a grid with NaN / zeros / infinities (every tier)
+    for (shape, src, grid_text) in stshapes::stream() {
+        nshapes += 1;
+        let grid = parse_vectors(&grid_text).unwrap_or_default();
+        let before = out.oracle_fail;
+        let mut arng = Rng::new(1);
+        let mut h2 = Hist::default();
+        if let Err(pn) = guard(|| run_program(&src, Some(("f1", &grid)), grid.len(), &mut arng, out, &mut h2)) {
+            hist.add("harness-panic");
+            out.case(&format!("C01.fn\t{}\tf1\t{}\t-\t-", one_line(&src), grid_text), "harness-panic", &format!("SKIP:harness panic {}", pn));
+        }
+        let kind = shape.split(|c| c == '[' || c == ':').next().unwrap_or("").to_string();
+        hist.add(&format!("stshape:{}", kind));
+        if h2.0.contains_key("skip:front-end") {
+            hist.add(&format!("stshape-rejected-by-front-end:{}", shape));
+        }
+        if h2.0.contains_key("fn:unsupported") {
+            hist.add(&format!("stshape-unsupported:{}", shape));
+        }
+        if h2.0.keys().any(|k| k.starts_with("text-not-reparsable") || k.starts_with("text-unsupported")) {
+            hist.add(&format!("stshape-text-not-evaluated:{}", shape));
+        }
+        if out.oracle_fail > before {
+            hist.add(&format!("stshape-oracle-fail:{}", shape));
+        }
+        for (k, v) in &h2.0 {
+            if k.starts_with("stmt-attr:") || k == "fn:with-statement-attributes" || k.starts_with("vector:") {
+                for _ in 0..*v {
+                    hist.add(&format!("st:{}", k));
+                }
+            }
         }
     }
     out.stat(&format!("{{\"programs\":{},\"shapes\":{},\"hist\":{}}}", n, nshapes, hist.json()));
